@@ -148,8 +148,12 @@ func (pids *pids) updateTimer() {
 		pids.c.cfg.logger.Logf(LogLevelWarn,
 			"txn timeout abort: txn_id=%s producer_id=%d epoch=%d timeout=%dms elapsed=%v",
 			minPid.txid, minPid.id, minPid.epoch, minPid.txTimeout, elapsed)
+		// At epoch exhaustion bumpEpoch returns a new producer; the timed
+		// out transaction still belongs to the old one and must be ended
+		// there, or it is never removed and this loop spins forever.
+		timedOut := minPid
 		minPid = pids.bumpEpoch(minPid)
-		minPid.endTx(false)
+		timedOut.endTx(false)
 		pids.c.persistPIDEntry(pidLogEntry{Type: "timeout", PID: minPid.id, Epoch: minPid.epoch})
 	}
 
@@ -664,6 +668,11 @@ func (pids *pids) create(txidp *string, txTimeout int32) (int64, int16) {
 	// to avoid FNV-64 hash collisions between different txids.
 	if txidp != nil {
 		if pidinf, ok := pids.byTxid[*txidp]; ok {
+			// Re-initializing fences the previous incarnation: a
+			// transaction it left open is aborted, not inherited.
+			if pidinf.inTx {
+				pidinf.endTx(false)
+			}
 			pidinf = pids.bumpEpoch(pidinf)
 			pidinf.lastActive = time.Now()
 			return pidinf.id, pidinf.epoch
